@@ -11,6 +11,7 @@
 //   - whether getAttribute sends maps of any other type than map[string]interface{} to getItem before the
 //     pointer indirection (`if origType.Kind() == reflect.Map { return ctx.getItem(obj, attr) }`); the model
 //     follows this flag, so it mirrors the tree with and without that repair
+//
 // Every missing shape sets the corresponding flag to false (and attr_consts_shape_ok to false), which
 // breaks Proofs/AttrCacheProofs.v (C20_cache_bounded and C20_cache_consts).
 package main
